@@ -45,6 +45,42 @@ theorem rust_rebalance_tests :
       ["(n > (rust_leaf_min_keys cap))", "(n > (rust_branch_min_keys cap))",
        "(n > (rust_leaf_min_keys cap))", "(n > (rust_branch_min_keys cap))"] := by decide
 
+
+/-! ### the checked / bulk wrappers (C10, C14): the source text `BPT/Rust/Checked.lean` transcribes -/
+/-- model: `Rust.tryInsert` -/
+theorem rust_src_try_insert_eq : rust_src_try_insert =
+    "if let Err(e) = self.check_invariants_detailed() { return Err(BPlusTreeError::DataIntegrityError(e)); } let old_value = self.insert(key, value); if let Err(e) = self.check_invariants_detailed() { return Err(BPlusTreeError::DataIntegrityError(e)); } Ok(old_value)" := rfl
+/-- model: `Rust.tryRemove` -/
+theorem rust_src_try_remove_eq : rust_src_try_remove =
+    "if let Err(e) = self.check_invariants_detailed() { return Err(BPlusTreeError::DataIntegrityError(e)); } let value = self.remove(key).ok_or(BPlusTreeError::KeyNotFound)?; if let Err(e) = self.check_invariants_detailed() { return Err(BPlusTreeError::DataIntegrityError(e)); } Ok(value)" := rfl
+/-- model: `Rust.batchInsert / batchInsertLoop / rollback` -/
+theorem rust_src_batch_insert_eq : rust_src_batch_insert =
+    "let mut results = Vec::new(); let mut inserted_keys = Vec::new(); for (key, value) in items { match self.try_insert(key.clone(), value) { Ok(old_value) => { results.push(old_value); inserted_keys.push(key); } Err(e) => { for rollback_key in inserted_keys { self.remove(&rollback_key); } return Err(e); } } } Ok(results)" := rfl
+/-- model: `Rust.tryGet` -/
+theorem rust_src_get_item_eq : rust_src_get_item =
+    "self.get(key).ok_or(BPlusTreeError::KeyNotFound)" := rfl
+/-- model: `Rust.tryGet` -/
+theorem rust_src_try_get_eq : rust_src_try_get =
+    "self.get(key).ok_or(BPlusTreeError::KeyNotFound)" := rfl
+/-- model: `Rust.getManyE` -/
+theorem rust_src_get_many_eq : rust_src_get_many =
+    "let mut values = Vec::new(); for key in keys.iter() { match self.get(key) { Some(value) => values.push(value), None => { return Err(BPlusTreeError::KeyNotFound); } } } Ok(values)" := rfl
+/-- model: `(get s k).isSome` -/
+theorem rust_src_contains_key_eq : rust_src_contains_key =
+    "self.get(key).is_some()" := rfl
+/-- model: `((get s k).map (·.2)).getD default` -/
+theorem rust_src_get_or_default_eq : rust_src_get_or_default =
+    "self.get(key).unwrap_or(default)" := rfl
+/-- model: `Rust.removeItem` -/
+theorem rust_src_remove_item_eq : rust_src_remove_item =
+    "self.remove(key).ok_or(BPlusTreeError::KeyNotFound)" := rfl
+/-- model: `Rust.validateForOperation` -/
+theorem rust_src_validate_eq : rust_src_validate =
+    "self.check_invariants_detailed()" := rfl
+/-- model: `Rust.validateForOperation` -/
+theorem rust_src_validate_for_operation_eq : rust_src_validate_for_operation =
+    "self.check_invariants_detailed().map_err(|e| { BPlusTreeError::data_integrity( operation, &format!('Validation for {}: {}', operation, e), ) })" := rfl
+
 /-! ### the repaired-defect switches of the reader model (`Cfg.repaired`) are what the code does now -/
 theorem rust_range_skip_only_matched : rust_range_skip_only_matched = Rust.Cfg.repaired.skipOnlyMatched := rfl
 theorem rust_end_key_honours_inclusive : rust_end_key_honours_inclusive = Rust.Cfg.repaired.honourEndIncl := rfl
